@@ -24,6 +24,8 @@ TIERS = {
 }
 QUAL_VALS = specs.QUAL_VALS_PLAIN + ["café", "α-helix", "a;b", "k=v", "50%", "tab\there", "x,y", "  lead", "UPPER", "1e3", "True",
                                      # strings that look like values of another type (a lenient loader may re-type them)
+                                     # values that differ only in case (ties under a case-insensitive sort)
+                                     "Kinase", "kinase", "KINASE", "alpha", "Alpha", "true", "TRUE",
                                      "007", "+3", " 4", "1_0", "00", "-0", "1.0", "false", "None", "null", "nan", "0x1F", "1e-5", "٣"]
 QUAL_KEYS = specs.QUAL_KEYS_PLAIN + ["Note", "gene_synonym", "über", "key with space"]
 
